@@ -353,7 +353,7 @@ class GdbSim:
             out_stream, err_stream = self.plugin_mod.output_streams()
             output = t['Output'](args.show_verbose, args.show_unprocessed_output, out_stream, err_stream)
             m.main(args, output, lambda prompt: (_ for _ in ()).throw(rig.HarnessError('input() called in gdb mode')))
-        except rig.HarnessError:
+        except (rig.HarnessError, rig.RunTimeout):
             raise
         except BaseException as e:  # noqa
             import traceback
@@ -399,7 +399,7 @@ class GdbSim:
         try:
             r = bp.stop()
             info['stop'] = bool(r)
-        except rig.HarnessError:
+        except (rig.HarnessError, rig.RunTimeout):
             raise
         except BaseException as e:  # noqa  (real gdb prints the error and stops the inferior)
             import traceback
@@ -555,7 +555,7 @@ class GdbSim:
         self.current_cmd = entry
         try:
             cmd.invoke(arg, True)
-        except rig.HarnessError:
+        except (rig.HarnessError, rig.RunTimeout):
             raise
         except BaseException as e:  # noqa
             import traceback
